@@ -172,4 +172,64 @@ theorem solves_smul (J : Matrix (Fin m) (Fin N) ℝ) (Ω : Matrix (Fin m) (Fin m
     simp only [Pi.smul_apply, smul_eq_mul]
     rw [this]; ring
 
+/-! ### change of variables `J' = J P` (frame changes of landmark increments, permutations of the unknowns) -/
+
+/-- `P` does not mix fixed and free unknowns -/
+def BlockDiag (F : Fin N → Prop) (P : Matrix (Fin N) (Fin N) ℝ) : Prop :=
+  ∀ i j, (F i ∧ ¬ F j) ∨ (¬ F i ∧ F j) → P i j = 0
+
+theorem gnH_reparam (J : Matrix (Fin m) (Fin N) ℝ) (Ω : Matrix (Fin m) (Fin m) ℝ) (P : Matrix (Fin N) (Fin N) ℝ) :
+    gnH (J * P) Ω = Pᵀ * gnH J Ω * P := by
+  unfold gnH; rw [transpose_mul]; simp only [Matrix.mul_assoc]
+
+theorem gnB_reparam (J : Matrix (Fin m) (Fin N) ℝ) (Ω : Matrix (Fin m) (Fin m) ℝ) (e : Fin m → ℝ)
+    (P : Matrix (Fin N) (Fin N) ℝ) : gnB (J * P) Ω e = Pᵀ *ᵥ gnB J Ω e := by
+  unfold gnB; rw [transpose_mul, ← mulVec_mulVec]
+
+/-- **a solution in the new variables is `P⁻¹` of a solution in the old ones**: if `dx'` solves the assembled system of
+    `J' = J P` then `P dx'` solves that of `J` (`P` invertible, not mixing fixed and free unknowns) -/
+theorem reparam_solves (J : Matrix (Fin m) (Fin N) ℝ) (Ω : Matrix (Fin m) (Fin m) ℝ) (e : Fin m → ℝ) (F : Fin N → Prop)
+    (P Q : Matrix (Fin N) (Fin N) ℝ) (hP : BlockDiag F P) (hQ : BlockDiag F Q) (hPQ : P * Q = 1)
+    (dx' : Fin N → ℝ) (h : SolvesAssembled (J * P) Ω e F dx') : SolvesAssembled J Ω e F (P *ᵥ dx') := by
+  constructor
+  · intro i hi
+    simp only [mulVec, dotProduct]
+    apply Finset.sum_eq_zero
+    intro j _
+    by_cases hj : F j
+    · rw [h.fixed_zero j hj]; ring
+    · rw [hP i j (Or.inl ⟨hi, hj⟩)]; ring
+  · intro i hi
+    -- y := H (P dx') + b ; Pᵀ y vanishes on free rows ; y = Qᵀ (Pᵀ y)
+    set y : Fin N → ℝ := gnH J Ω *ᵥ (P *ᵥ dx') + gnB J Ω e with hy
+    have hPy : ∀ j, ¬ F j → (Pᵀ *ᵥ y) j = 0 := by
+      intro j hj
+      have := h.free_rows j hj
+      rw [gnH_reparam, gnB_reparam] at this
+      have e1 : (Pᵀ * gnH J Ω * P) *ᵥ dx' = Pᵀ *ᵥ (gnH J Ω *ᵥ (P *ᵥ dx')) := by
+        rw [mulVec_mulVec, mulVec_mulVec, Matrix.mul_assoc]
+      rw [e1] at this
+      rw [hy, mulVec_add]
+      simp only [Pi.add_apply]; rw [this]; ring
+    have hyQ : y = Qᵀ *ᵥ (Pᵀ *ᵥ y) := by
+      rw [mulVec_mulVec, ← transpose_mul, hPQ]; simp
+    have hyi : y i = 0 := by
+      rw [hyQ]
+      simp only [mulVec, dotProduct, transpose_apply]
+      apply Finset.sum_eq_zero
+      intro j _
+      by_cases hj : F j
+      · rw [hQ j i (Or.inl ⟨hj, hi⟩)]; ring
+      · have := hPy j hj
+        simp only [mulVec, dotProduct, transpose_apply] at this
+        rw [this]; ring
+    have : y i = (gnH J Ω *ᵥ (P *ᵥ dx')) i + gnB J Ω e i := by rw [hy]; rfl
+    linarith
+
+/-- the linearised χ² is the same function in both parametrisations -/
+theorem chi2_reparam (J : Matrix (Fin m) (Fin N) ℝ) (Ω : Matrix (Fin m) (Fin m) ℝ) (e : Fin m → ℝ)
+    (P : Matrix (Fin N) (Fin N) ℝ) (d : Fin N → ℝ) :
+    chi2 Ω (e + (J * P) *ᵥ d) = chi2 Ω (e + J *ᵥ (P *ᵥ d)) := by
+  rw [mulVec_mulVec]
+
 end GraphSlam.Theory
